@@ -11,6 +11,11 @@ package main
 //                  lives in the ACCOUNTS section (token of account `a`)
 //   response path: a global retry remedy fires only on status 500+(k mod 10) and answers
 //                  x-lunar-retry-after = 10+(k mod 10) for a new sequence (attempts 3, multiplier 1)
+//   diagnosis leg: a global metrics_collector diagnosis (export: file) records request header
+//                  x-dg-<k mod 10>; every request carries x-dg-0 … x-dg-9, so the record the real
+//                  DiagnosisWorker exports (to the syslog connection, which the harness serves) shows
+//                  which policies the worker resolved for that transaction.  `stall` holds the export
+//                  writer's lock so that the worker blocks inside its current task and a backlog builds.
 // so two labels with the same units digit differ in the accounts section only.
 // The mock clock of the child never advances (retention/vacuum timing is level 1's subject); every
 // case uses process-unique transaction ids, so a case's answers are a function of its op lines.
@@ -18,6 +23,7 @@ package main
 import (
 	"bufio"
 	"bytes"
+	"encoding/json"
 	"fmt"
 	"io"
 	"log"
@@ -27,10 +33,15 @@ import (
 	"os"
 	"os/exec"
 	"path/filepath"
+	"reflect"
+	"sort"
 	"strconv"
 	"strings"
 	"sync"
+	"sync/atomic"
+	"syscall"
 	"time"
+	"unsafe"
 
 	"lunar/engine/routing"
 	contextmanager "lunar/toolkit-core/context-manager"
@@ -44,6 +55,7 @@ import (
 )
 
 const (
+	glueNetnsEnv = "VERIF_C11_GLUE_NETNS"
 	glueChildEnv = "VERIF_C11_GLUE_CHILD"
 	glueRootEnv  = "VERIF_C11_GLUE_ROOT"
 	lensAttempts = 3
@@ -72,13 +84,24 @@ func policiesYAML(label int64, valid bool) string {
             status_code:
               - from: %d
                 to: %d
+  diagnosis:
+    - name: verif-collect
+      enabled: true
+      export: file
+      config:
+        metrics_collector:
+          request_header_names: [x-dg-%d]
+exporters:
+  file:
+    file_dir: /tmp/verif-c11-export
+    file_name: export.log
 accounts:
   a:
     tokens:
       - header:
           name: x-verif-version
           value: v%d
-`, lensAttempts, 10+label%10, 500+label%10, 500+label%10, label)
+`, lensAttempts, 10+label%10, 500+label%10, 500+label%10, label%10, label)
 }
 
 // ------------------------------------------------------------------ child side
@@ -89,6 +112,37 @@ type glueWorld struct {
 	rd      *routing.HandlingDataManager
 	handler routing.MessageHandler
 	serial  int
+	stalled bool
+	wmu     *sync.RWMutex // the export writer's own mutex (NetworkWriter.mutex)
+	recMu   sync.Mutex
+	records []diagRecord // exported diagnosis records, in arrival order
+	seen    map[int64]bool // transactions whose request the diagnosis worker has stored (bookkeeping for waiting only)
+	free    map[int64]bool // transactions first seen under diagnosis-free policies
+	curFree bool           // the policies in force are the diagnosis-free variant
+	expect  int            // records still expected by the next `diag`
+}
+
+var lostRecords atomic.Int32
+
+type diagRecord struct {
+	txn   string
+	label string
+}
+
+// loopbackUp brings `lo` up in a fresh network namespace (SIOCGIFFLAGS / SIOCSIFFLAGS).
+func loopbackUp() {
+	fd, err := syscall.Socket(syscall.AF_INET, syscall.SOCK_DGRAM, 0)
+	if err != nil {
+		return
+	}
+	defer syscall.Close(fd)
+	var ifr [40]byte
+	copy(ifr[:], "lo")
+	if _, _, e := syscall.Syscall(syscall.SYS_IOCTL, uintptr(fd), 0x8913, uintptr(unsafe.Pointer(&ifr[0]))); e != 0 {
+		return
+	}
+	ifr[16] |= 0x1 // IFF_UP
+	syscall.Syscall(syscall.SYS_IOCTL, uintptr(fd), 0x8914, uintptr(unsafe.Pointer(&ifr[0])))
 }
 
 func freePort() string {
@@ -132,17 +186,32 @@ func (t bodyCloser) RoundTrip(r *http.Request) (*http.Response, error) {
 
 func newGlueWorld() *glueWorld {
 	w := &glueWorld{root: os.Getenv(glueRootEnv)}
-	if sl, err := net.Listen("tcp", "127.0.0.1:5140"); err == nil { // swallow the syslog dial of writers.Dial
-		go func() {
-			for {
-				c, err := sl.Accept()
-				if err != nil {
-					return
-				}
-				go io.Copy(io.Discard, c)
-			}
-		}()
+	// the syslog endpoint of the file exporter (writers.Dial): the harness is the server and reads the records
+	// (the address is hard-coded in the engine; the child normally runs in its own network namespace, else it
+	// waits for the port: another check's harness may hold it for a while)
+	if os.Getenv(glueNetnsEnv) != "" {
+		loopbackUp()
 	}
+	var sl net.Listener
+	var err error
+	for try := 0; ; try++ {
+		if sl, err = net.Listen("tcp", "127.0.0.1:5140"); err == nil {
+			break
+		}
+		if try > 1800 {
+			panic("c11 glue: cannot serve the export endpoint 127.0.0.1:5140: " + err.Error())
+		}
+		time.Sleep(100 * time.Millisecond)
+	}
+	go func() {
+		for {
+			c, err := sl.Accept()
+			if err != nil {
+				return
+			}
+			go w.readRecords(c)
+		}
+	}()
 	http.DefaultClient.Transport = bodyCloser{http.DefaultTransport}
 	serveOK(os.Getenv("HAPROXY_MANAGE_ENDPOINTS_PORT"))
 	serveOK(os.Getenv("LUNAR_HEALTHCHECK_PORT"))
@@ -160,7 +229,134 @@ func newGlueWorld() *glueWorld {
 	w.srv.Config.ErrorLog = log.New(io.Discard, "", 0)
 	w.srv.Start()
 	w.handler = routing.Handler(w.rd)
+	// the export writer's mutex (read-only peek; locked by `stall`)
+	wr := peek(reflect.ValueOf(w.rd).Elem(), "writer").Elem() // interface -> *NetworkWriter
+	if wr.Kind() != reflect.Ptr || wr.Elem().Kind() != reflect.Struct || !wr.Elem().FieldByName("mutex").IsValid() {
+		panic("c11 glue: export writer is not a NetworkWriter (dial to 127.0.0.1:5140 failed?)")
+	}
+	w.wmu = peek(wr.Elem(), "mutex").Addr().Interface().(*sync.RWMutex)
 	return w
+}
+
+// readRecords parses the exporter's lines: "<timestamp> <exporter> <json>\n".
+func (w *glueWorld) readRecords(c net.Conn) {
+	rd := bufio.NewReaderSize(c, 1<<16)
+	for {
+		line, err := rd.ReadString('\n')
+		if len(line) > 0 {
+			// "<timestamp> <exporter name> <json>"
+			if i := strings.IndexByte(line, '{'); i >= 0 {
+				payload := strings.TrimSpace(line[i:])
+				var rec struct {
+					NormalizedURL  string            `json:"normalized_url"`
+					URL            string            `json:"url"`
+					RequestHeaders map[string]string `json:"request_headers"`
+				}
+				if json.Unmarshal([]byte(payload), &rec) == nil {
+					u := rec.NormalizedURL
+					if u == "" {
+						u = rec.URL
+					}
+					var names []string
+					for k := range rec.RequestHeaders {
+						if strings.HasPrefix(k, "x-dg-") {
+							names = append(names, k[5:])
+						}
+					}
+					sort.Strings(names)
+					label := "none"
+					if len(names) > 0 {
+						label = strings.Join(names, "+")
+					}
+					w.recMu.Lock()
+					w.records = append(w.records, diagRecord{txn: u, label: label})
+					w.recMu.Unlock()
+				}
+			}
+		}
+		if err != nil {
+			return
+		}
+	}
+}
+
+func (w *glueWorld) stall() {
+	if !w.stalled {
+		w.wmu.Lock()
+		w.stalled = true
+	}
+}
+
+func (w *glueWorld) unstall() {
+	if w.stalled {
+		w.wmu.Unlock()
+		w.stalled = false
+	}
+}
+
+// collect waits for the records of every response answered since the last collect and reports
+// `<txn>:<label>` per record, ordered by transaction number (stable).
+func (w *glueWorld) collect() string {
+	time.Sleep(2 * time.Millisecond) // let the notifier goroutines reach the worker's queue
+	w.unstall()
+	prefix := fmt.Sprintf("c%d-t", w.serial)
+	deadline := time.Now().Add(3 * time.Second)
+	if lostRecords.Load() >= 3 {
+		deadline = time.Now().Add(50 * time.Millisecond) // a tree that loses records: do not wait long again and again
+	}
+	for {
+		n := 0
+		w.recMu.Lock()
+		for _, r := range w.records {
+			if strings.HasPrefix(r.txn, prefix) {
+				n++
+			}
+		}
+		w.recMu.Unlock()
+		if n >= w.expect {
+			break
+		}
+		if time.Now().After(deadline) {
+			lostRecords.Add(1)
+			break
+		}
+		time.Sleep(100 * time.Microsecond)
+	}
+	w.recMu.Lock()
+	recs := w.records
+	w.records = nil
+	w.recMu.Unlock()
+	expect := w.expect
+	w.expect = 0
+	type item struct {
+		n     int64
+		label string
+	}
+	var items []item
+	for _, r := range recs {
+		host, _, _ := strings.Cut(r.txn, ".")
+		if !strings.HasPrefix(host, prefix) {
+			continue // a record of another case / an empty task
+		}
+		n, err := strconv.ParseInt(host[len(prefix):], 10, 64)
+		if err != nil {
+			continue
+		}
+		items = append(items, item{n, r.label})
+	}
+	sort.SliceStable(items, func(i, j int) bool { return items[i].n < items[j].n })
+	var parts []string
+	for _, it := range items {
+		parts = append(parts, fmt.Sprintf("%d:%s", it.n, it.label))
+	}
+	out := "diag=none"
+	if len(parts) > 0 {
+		out = "diag=" + strings.Join(parts, ",")
+	}
+	if missing := expect - len(items); missing > 0 {
+		out += fmt.Sprintf(" missing=%d", missing)
+	}
+	return out
 }
 
 func must(err error) {
@@ -179,6 +375,14 @@ func (w *glueWorld) post(path string) (int, string) {
 
 func (w *glueWorld) reload(label int64, valid bool) string {
 	must(os.WriteFile(os.Getenv("LUNAR_PROXY_POLICIES_CONFIG"), []byte(policiesYAML(label, valid)), 0o644))
+	if w.stalled {
+		// the admin route first closes the export writer, which needs the lock `stall` holds: call what the
+		// route calls next (same accessor method) directly
+		if err := w.rd.GetTxnPoliciesAccessor().ReloadFromFile(); err != nil {
+			return "err:rejected"
+		}
+		return "ok"
+	}
 	code, _ := w.post("/apply_policies")
 	switch code {
 	case 200:
@@ -228,18 +432,32 @@ func (w *glueWorld) spoe(name string, kvs *kv.KV) []struct {
 	return out
 }
 
+var dgHeaders = func() string {
+	var b strings.Builder
+	for k := 0; k < 10; k++ {
+		fmt.Fprintf(&b, "x-dg-%d: 1\r\n", k)
+	}
+	return b.String()
+}()
+
 func (w *glueWorld) request(id, seq int64) string {
 	kvs := kv.NewKV()
 	kvs.Add("id", w.txn(id))
 	kvs.Add("sequence_id", w.txn(seq))
 	kvs.Add("method", "GET")
 	kvs.Add("scheme", "http")
-	kvs.Add("url", "verif.example/x")
+	kvs.Add("url", w.txn(id)+".verif.example/x")
 	kvs.Add("path", "/x")
 	kvs.Add("query", "")
-	kvs.Add("headers", "")
+	kvs.Add("headers", dgHeaders)
 	kvs.Add("body", []byte(""))
 	acts := w.spoe("lunar-on-request", kvs)
+	if _, ok := w.free[id]; !ok {
+		w.free[id] = w.curFree
+	}
+	if !w.free[id] {
+		w.seen[id] = true
+	}
 	v := headerIn(acts, "request_headers", "x-verif-version")
 	if strings.HasPrefix(v, "v") {
 		return "ver=" + v[1:]
@@ -252,11 +470,17 @@ func (w *glueWorld) response(id, seq, status int64) string {
 	kvs.Add("id", w.txn(id))
 	kvs.Add("sequence_id", w.txn(seq))
 	kvs.Add("method", "GET")
-	kvs.Add("url", "verif.example/x")
+	kvs.Add("url", w.txn(id)+".verif.example/x")
 	kvs.Add("status", status)
 	kvs.Add("headers", "")
 	kvs.Add("body", []byte(""))
 	acts := w.spoe("lunar-on-response", kvs)
+	if _, ok := w.free[id]; !ok {
+		w.free[id] = w.curFree
+	}
+	if w.seen[id] {
+		w.expect++ // the diagnosis worker will export one record for this transaction
+	}
 	v := headerIn(acts, "response_headers", "x-lunar-retry-after")
 	if v != "" {
 		return "retry=" + v
@@ -267,6 +491,13 @@ func (w *glueWorld) response(id, seq, status int64) string {
 // execGlue runs one glue case against the child's world.
 func (w *glueWorld) execGlue(ops []string) []string {
 	w.serial++
+	w.seen = map[int64]bool{}
+	w.free = map[int64]bool{}
+	w.expect = 0
+	w.recMu.Lock()
+	w.records = nil
+	w.recMu.Unlock()
+	defer w.unstall()
 	outs := make([]string, len(ops))
 	ready := false
 	for i, op := range ops {
@@ -278,12 +509,13 @@ func (w *glueWorld) execGlue(ops []string) []string {
 		switch {
 		case f[0] == "gcfg" && len(f) == 2:
 			d0, ok := kvI(f[1:], "d0")
-			if !ok {
+			if !ok || d0 >= 1000 {
 				continue
 			}
 			// the case's initial policies: a reload (the manager is shared by all cases of this process)
 			outs[i] = w.reload(d0, true)
 			ready = outs[i] == "ok"
+			w.curFree = false
 		case f[0] == "req" && len(f) == 3 && ready:
 			id, ok1 := kvI(f[1:2], "id")
 			seq, ok2 := kvI(f[2:3], "seq")
@@ -300,19 +532,45 @@ func (w *glueWorld) execGlue(ops []string) []string {
 		case f[0] == "reload" && len(f) == 3 && ready:
 			d, ok1 := kvI(f[1:2], "d")
 			okn, ok2 := kvI(f[2:3], "ok")
-			if ok1 && ok2 && okn <= 1 {
+			if ok1 && ok2 && okn <= 1 && d < 1000 {
 				outs[i] = w.reload(d, okn == 1)
+				if outs[i] == "ok" {
+					w.curFree = false
+				}
 			}
+		case f[0] == "stall" && len(f) == 1 && ready:
+			w.stall()
+			outs[i] = "ok"
+		case f[0] == "unstall" && len(f) == 1 && ready:
+			w.unstall()
+			outs[i] = "ok"
+		case f[0] == "diag" && len(f) == 1 && ready:
+			outs[i] = w.collect()
 		case f[0] == "revert" && len(f) == 2 && ready:
 			kind, _ := proto.KV(f[1:], "kind")
 			path := map[string]string{"last": "/revert_to_last_loaded", "free": "/revert_to_diagnosis_free"}[kind]
 			if path == "" {
 				continue
 			}
-			if code, _ := w.post(path); code == 200 {
+			if w.stalled {
+				var err error
+				if kind == "last" {
+					err = w.rd.GetTxnPoliciesAccessor().RevertToLastLoaded()
+				} else {
+					err = w.rd.GetTxnPoliciesAccessor().RevertToDiagnosisFree()
+				}
+				if err == nil {
+					outs[i] = "ok"
+				} else {
+					outs[i] = "err:revert"
+				}
+			} else if code, _ := w.post(path); code == 200 {
 				outs[i] = "ok"
 			} else {
 				outs[i] = "err:http" + strconv.Itoa(code)
+			}
+			if outs[i] == "ok" {
+				w.curFree = kind == "free"
 			}
 		}
 	}
@@ -397,7 +655,6 @@ func getGlue() *glueClient {
 		must(os.WriteFile(filepath.Join(root, "discovery.json"), []byte("{}"), 0o644))
 		self, err := os.Executable()
 		must(err)
-		cmd := exec.Command(self)
 		var env []string
 		for _, e := range os.Environ() {
 			if strings.HasPrefix(e, "HAPROXY_MANAGE_ENDPOINTS_PORT=") || strings.HasPrefix(e, "LUNAR_STREAMS_ENABLED=") {
@@ -405,7 +662,7 @@ func getGlue() *glueClient {
 			}
 			env = append(env, e)
 		}
-		cmd.Env = append(env,
+		env = append(env,
 			glueChildEnv+"=1", glueRootEnv+"="+root,
 			"LUNAR_STREAMS_ENABLED=false",
 			"HAPROXY_MANAGE_ENDPOINTS_PORT="+freePort(),
@@ -423,13 +680,29 @@ func getGlue() *glueClient {
 			"DIAGNOSIS_FAILSAFE_MIN_STABLE_SEC=60", "DIAGNOSIS_FAILSAFE_COOLDOWN_SEC=60",
 			"DIAGNOSIS_FAILSAFE_HEALTHY_SESSION_RATE=0", "DIAGNOSIS_FAILSAFE_HEALTHY_MAX_LAST_SESSION_SEC=30",
 		)
-		cmd.Dir = root
-		cmd.Stderr = os.Stderr
-		in, err := cmd.StdinPipe()
+		// own network namespace: the engine's export endpoint 127.0.0.1:5140 is hard-coded and other checks'
+		// harnesses listen on it too; without the privilege fall back to sharing the host's loopback
+		var cmd *exec.Cmd
+		var in io.WriteCloser
+		var outp io.ReadCloser
+		for _, netns := range []bool{true, false} {
+			cmd = exec.Command(self)
+			cmd.Env = env
+			if netns {
+				cmd.Env = append(append([]string{}, env...), glueNetnsEnv+"=1")
+				cmd.SysProcAttr = &syscall.SysProcAttr{Cloneflags: syscall.CLONE_NEWNET}
+			}
+			cmd.Dir = root
+			cmd.Stderr = os.Stderr
+			in, err = cmd.StdinPipe()
+			must(err)
+			outp, err = cmd.StdoutPipe()
+			must(err)
+			if err = cmd.Start(); err == nil {
+				break
+			}
+		}
 		must(err)
-		outp, err := cmd.StdoutPipe()
-		must(err)
-		must(cmd.Start())
 		g := &glueClient{cmd: cmd, in: in, out: bufio.NewReaderSize(outp, 1<<20), root: root}
 		line, err := g.out.ReadString('\n')
 		if err != nil || strings.TrimSpace(line) != "ready" {
